@@ -311,6 +311,21 @@ CLAIMED = {
              "code only through the two correspondences; the devices' own output computation in that pass is C19 / C26.",
         technique="Coq invariant proof over all frame histories + execution of the real group program and dispatcher bytecode in a kernel-validated ISA model",
         ref="7/C21"),
+    "C23": dict(
+        text="Theorems C23_two_participants (two participants, EVERY interleaving of their start / stop steps and every outcome of the ethertype draws - closed "
+             "finite set of states with closure and invariants checked inside the kernel: at most one installs the dispatcher at a time, running participants "
+             "have distinct ethertypes), C23_three_participants_explored (the same invariants on all 22998 states of the exhaustive exploration for three), "
+             "C23_windows_distinct / _disjoint / C23_groups_in_window (EVERY history of window allocations and releases of any number of processes: distinct "
+             "window numbers, disjoint windows, sync-group blocks inside the window); C23_refuted_stays_installed gives the machine-checked schedule of the "
+             "recorded race. Tie: the REAL ParallelEtherCat.run() runs in forked processes whose operations on the lock directory, the pinned table and the "
+             "attachment are gated and interleaved by random schedules (and the race schedule); the final shared state and every participant's position must "
+             "equal the model's, the properties are checked after every step; the REAL FMMULock is created concurrently with colliding draws and the creator "
+             "interrupted after creating the file.",
+        note=TB + "Partial: netlink attach / detach, bpf obj_pin / obj_get / create_map and the raw socket are stand-ins inside the children (files in a scratch "
+             "root; the file-system calls are real); crashes between operations are not modelled; for three participants the closure of the explored set is not "
+             "re-proved structurally. Known finding: the dispatcher does not stay installed (leaver / fresh starter race).",
+        technique="Coq finite-state closure proof + invariant proof over histories + real multi-process executions gated at every shared operation",
+        ref="7/C23"),
 }
 
 REASONS_NOT_YET = "no check built yet in this round (planned, see DESIGN.md section 7); nothing is claimed for it"
